@@ -128,8 +128,10 @@ impl<T: Alignment> Write for AlignedCursor<T> {
         }
 
         let cap = self.vec.len().saturating_mul(std::mem::size_of::<T>());
-        let rem = cap - self.pos;
-        if rem < len {
+        // `self.pos + len` cannot overflow, as `len <= usize::MAX - self.pos`.
+        // The position can be past the capacity (after a seek or
+        // `set_position`): the gap is zero-filled, as `std::io::Cursor` does.
+        if cap < self.pos + len {
             self.vec.resize(
                 (self.pos + len).div_ceil(std::mem::size_of::<T>()),
                 T::default(),
